@@ -10,9 +10,18 @@ package main
 import (
 	"fmt"
 	"go/ast"
+	"go/constant"
+	"go/token"
 	"go/types"
 	"strings"
 )
+
+func constantInt(tv types.TypeAndValue) (int64, bool) {
+	if tv.Value == nil || tv.Value.Kind() != constant.Int {
+		return 0, false
+	}
+	return constant.Int64Val(tv.Value)
+}
 
 type segInterp struct {
 	c       *Ctx
@@ -24,7 +33,18 @@ type segInterp struct {
 	copiers map[string]bool // constructors that fold their argument
 }
 
+// segBuf: a Go slice made in the function, with the operands copied into it at given offsets.
+type segBuf struct {
+	total  *Lin
+	placed []segPlaced
+}
+type segPlaced struct {
+	off *Lin
+	op  string
+}
+
 type segFrame struct {
+	bufs  map[types.Object]*segBuf
 	info  *types.Info
 	fd    *ast.FuncDecl
 	vals  map[types.Object]*[]string // collection variables under construction
@@ -80,7 +100,82 @@ func (si *segInterp) run(fr *segFrame) ([]string, bool) {
 	return ret, true
 }
 
+// lenForm: a sum of lengths of operands (len(a)+len(b), a.GetSize()+...) and constants as a linear form.
+func (si *segInterp) lenForm(fr *segFrame, e ast.Expr) *Lin {
+	e = ast.Unparen(e)
+	if tv, ok := fr.info.Types[e]; ok && tv.Value != nil {
+		if v, ok := constantInt(tv); ok {
+			return linConst(v)
+		}
+	}
+	switch x := e.(type) {
+	case *ast.BinaryExpr:
+		a, b := si.lenForm(fr, x.X), si.lenForm(fr, x.Y)
+		if a == nil || b == nil {
+			return nil
+		}
+		switch x.Op {
+		case token.ADD:
+			return a.add(b)
+		case token.SUB:
+			return a.sub(b)
+		}
+	case *ast.CallExpr:
+		if isBuiltinCall(fr.info, x, "len") && len(x.Args) == 1 {
+			if a, ok := si.operand(fr, x.Args[0]); ok {
+				return linSym("|" + a + "|")
+			}
+		}
+		if rx, mname, _, ok := methodCall(x); ok && mname == "GetSize" {
+			if a, ok := si.operand(fr, rx); ok {
+				return linSym("|" + a + "|")
+			}
+		}
+		if tv, ok := fr.info.Types[x.Fun]; ok && tv.IsType() && len(x.Args) == 1 {
+			return si.lenForm(fr, x.Args[0]) // a conversion
+		}
+	case *ast.Ident:
+		if init := initOfIn(fr.info, fr.fd.Body, x); init != nil {
+			return si.lenForm(fr, init)
+		}
+	}
+	return nil
+}
+
+// bufSegments: the operands of a buffer in the order of their offsets, when they tile it exactly.
+func (si *segInterp) bufSegments(b *segBuf) []string {
+	placed := append([]segPlaced{}, b.placed...)
+	var out []string
+	next := linConst(0)
+	for len(placed) > 0 {
+		found := -1
+		for i, p := range placed {
+			if p.off.equal(next) {
+				found = i
+			}
+		}
+		if found < 0 {
+			// a gap or an overlap: name the offending placement
+			for _, p := range placed {
+				out = append(out, fmt.Sprintf("%s@offset %v (expected offset %v)", p.op, p.off, next))
+			}
+			return out
+		}
+		out = append(out, placed[found].op)
+		next = next.add(linSym("|" + placed[found].op + "|"))
+		placed = append(placed[:found], placed[found+1:]...)
+	}
+	if !next.equal(b.total) {
+		out = append(out, fmt.Sprintf("length %v (the operands fill %v)", b.total, next))
+	}
+	return out
+}
+
 func (si *segInterp) operand(fr *segFrame, e ast.Expr) (string, bool) {
+	// a snapshot of an operand stands for the operand
+	if rx, mname, call, ok := methodCall(ast.Unparen(e)); ok && mname == "AsArray" && len(call.Args) == 0 {
+		return si.operand(fr, rx)
+	}
 	if o := identObj(fr.info, ast.Unparen(e)); o != nil {
 		if a, ok := fr.alias[o]; ok {
 			return a, true
@@ -92,7 +187,35 @@ func (si *segInterp) operand(fr *segFrame, e ast.Expr) (string, bool) {
 // value: segments of a collection-valued expression.
 func (si *segInterp) value(fr *segFrame, e ast.Expr) ([]string, bool) {
 	e = ast.Unparen(e)
+	if u, ok := e.(*ast.UnaryExpr); ok && u.Op == token.AND {
+		e = ast.Unparen(u.X)
+	}
+	if cl, ok := e.(*ast.CompositeLit); ok {
+		// a collection literal: the field that holds a built collection or buffer is its content
+		for _, el := range cl.Elts {
+			v := el
+			if kv, ok := el.(*ast.KeyValueExpr); ok {
+				v = kv.Value
+			}
+			if t := fr.info.TypeOf(v); t != nil && (isCollectionLike(t) || isGoContainer(t)) {
+				saved := si.why
+				if segs, ok := si.value(fr, v); ok {
+					return segs, true
+				}
+				si.why = saved
+			}
+		}
+		return nil, si.giveUp("unsupported literal %s", exprStr(cl))
+	}
+	if call, ok := e.(*ast.CallExpr); ok && len(call.Args) == 1 {
+		if tv, ok := fr.info.Types[call.Fun]; ok && tv.IsType() {
+			return si.value(fr, call.Args[0]) // a conversion wraps the same elements
+		}
+	}
 	if o := identObj(fr.info, e); o != nil {
+		if b, ok := fr.bufs[o]; ok {
+			return si.bufSegments(b), true
+		}
 		if v, ok := fr.vals[o]; ok {
 			return append([]string{}, (*v)...), true
 		}
@@ -136,7 +259,7 @@ func (si *segInterp) helper(fr *segFrame, call *ast.CallExpr) ([]string, bool, b
 		return nil, si.giveUp("helper nesting too deep at %s", si.c.pos(call.Pos())), true
 	}
 	hinfo := si.c.infoFor(hd)
-	sub := &segFrame{info: hinfo, fd: hd, vals: map[types.Object]*[]string{}, alias: map[types.Object]string{}, iters: map[types.Object]string{}, lists: map[types.Object][]string{}}
+	sub := &segFrame{bufs: map[types.Object]*segBuf{}, info: hinfo, fd: hd, vals: map[types.Object]*[]string{}, alias: map[types.Object]string{}, iters: map[types.Object]string{}, lists: map[types.Object][]string{}}
 	hp := paramObjs(hinfo, hd)
 	for i, a := range call.Args {
 		if i >= len(hp) {
@@ -222,6 +345,13 @@ func (si *segInterp) stmt(fr *segFrame, s ast.Stmt) bool {
 			fr.alias[obj] = a
 			return true
 		}
+		if call, ok := r.(*ast.CallExpr); ok && isBuiltinCall(info, call, "make") && len(call.Args) >= 2 {
+			if total := si.lenForm(fr, call.Args[1]); total != nil {
+				fr.bufs[obj] = &segBuf{total: total}
+				return true
+			}
+			return si.giveUp("the length of the slice made at %s is not a sum of operand lengths", si.c.pos(s.Pos()))
+		}
 		if !isCollectionLike(obj.Type()) {
 			// scalars, notations, sizes: irrelevant, unless the initialiser touches a collection under construction
 			touches := false
@@ -251,6 +381,28 @@ func (si *segInterp) stmt(fr *segFrame, s ast.Stmt) bool {
 		call, ok := ast.Unparen(st.X).(*ast.CallExpr)
 		if !ok {
 			return si.giveUp("unsupported statement at %s", si.c.pos(s.Pos()))
+		}
+		if isBuiltinCall(info, call, "copy") && len(call.Args) == 2 {
+			dst := ast.Unparen(call.Args[0])
+			off := linConst(0)
+			if se, ok := dst.(*ast.SliceExpr); ok {
+				if se.High != nil {
+					return si.giveUp("copy into a bounded window at %s", si.c.pos(s.Pos()))
+				}
+				if se.Low != nil {
+					if off = si.lenForm(fr, se.Low); off == nil {
+						return si.giveUp("the offset of the copy at %s is not a sum of operand lengths", si.c.pos(s.Pos()))
+					}
+				}
+				dst = ast.Unparen(se.X)
+			}
+			b, isBuf := fr.bufs[identObj(info, dst)]
+			src, isOp := si.operand(fr, call.Args[1])
+			if !isBuf || !isOp {
+				return si.giveUp("unsupported copy at %s", si.c.pos(s.Pos()))
+			}
+			b.placed = append(b.placed, segPlaced{off, src})
+			return true
 		}
 		if rx, mname, _, ok := methodCall(call); ok {
 			if ro := identObj(info, rx); ro != nil {
@@ -458,7 +610,7 @@ func (si *segInterp) foldBody(fr *segFrame, body *ast.BlockStmt, it types.Object
 // segmentsOf interprets a class function of operand parameters and returns the segments of its result.
 func segmentsOf(c *Ctx, info *types.Info, fd *ast.FuncDecl) ([]string, string) {
 	si := newSegInterp(c)
-	fr := &segFrame{info: info, fd: fd, vals: map[types.Object]*[]string{}, alias: map[types.Object]string{}, iters: map[types.Object]string{}, lists: map[types.Object][]string{}}
+	fr := &segFrame{bufs: map[types.Object]*segBuf{}, info: info, fd: fd, vals: map[types.Object]*[]string{}, alias: map[types.Object]string{}, iters: map[types.Object]string{}, lists: map[types.Object][]string{}}
 	for i, p := range paramObjs(info, fd) {
 		fr.alias[p] = fmt.Sprintf("p%d", i)
 	}
